@@ -661,8 +661,8 @@ example : ParOk (parOf [{}, {}]) ∧ Inv (parOf [{}, {}]) (fun _ _ _ => True) (M
 open Coap.Msg in
 /-- **wait_le_every_deadline** (every state, any number of messages and sessions, no scope restriction): the wait
 `coap_io_prepare_io` returns never exceeds the time to ANY pending deadline of ANY session (`0` when one is already
-due); it is exactly the time to the earliest one reduced to the `unsigned int` result (mod 2^32), and `0` iff told so by
-an empty queue. -/
+due); it is exactly the time to the earliest one reduced to the `unsigned int` result (mod 2^32), and `0` on an empty
+queue. -/
 theorem wait_le_every_deadline (l : L) : let r := prepareCore l
     (∀ e ∈ abs r.1.q, r.2 ≤ e.deadline - r.1.now) ∧
     (∀ d, Spec.SQ.earliest (abs r.1.q) = some d → r.2 = (d - r.1.now) % 4294967296) ∧
@@ -823,6 +823,22 @@ example : (∀ se ∈ [({ maxRtx := 1 } : Msg.Sess)], SessOk se) ∧ RunG (Msg.i
     Punctual (Msg.init 0 [{ maxRtx := 1 }]) gevs ∧ ¬ RunIn (Msg.init 0 [{ maxRtx := 1 }]) gevs ∧
     (Msg.run (Msg.init 0 [{ maxRtx := 1 }]) gevs).out.filterMap obsM =
       [.tx 9000 0 2 1 true, .nackRetries 6000 0 1, .tx 6000 0 2 0 true, .tx 2000 0 1 1 true, .tx 0 0 1 0 true] := by
+  decide
+
+open Coap.Sim Coap.Sched in
+/-- **sim_gate_order_witness** (why the exact simulation of section (6) must exclude the NSTART gate): on the gated
+witness run M lets the delayed message 2 in from INSIDE the give-up of message 1 (`coap_retransmit` →
+`coap_session_connected` → transmit, then the NACK is reported): `tx 6000 (0,2) 0` comes BEFORE `nack 6000 (0,1)`.
+S's clock only moves with a `tick`, which fires everything due first, so the `send` of message 2 at 6000 can only follow
+the `tick 6000` that reports the NACK: the natural translation gives the same observations as a multiset, in a different
+order within the instant 6000. -/
+theorem sim_gate_order_witness :
+    let obsS' := (Timer.run (Timer.init 0) [.tick 0, .send 0 1 2000 1, .tick 2000, .tick 6000, .send 0 2 3000 1,
+      .tick 9000, .ack 0 2, .tick 9000]).outs.filterMap obsS
+    let obsM' := (Msg.run (Msg.init 0 [{ maxRtx := 1 }]) gevs).out.filterMap obsM
+    obsS'.isPerm obsM' = true ∧ obsS' ≠ obsM' ∧
+    obsM' = [.tx 9000 0 2 1 true, .nackRetries 6000 0 1, .tx 6000 0 2 0 true, .tx 2000 0 1 1 true, .tx 0 0 1 0 true] ∧
+    obsS' = [.tx 9000 0 2 1 true, .tx 6000 0 2 0 true, .nackRetries 6000 0 1, .tx 2000 0 1 1 true, .tx 0 0 1 0 true] := by
   decide
 
 open Coap.Sim Coap.Sched in
